@@ -26,6 +26,14 @@ def gain {m n : Nat} (H : QMat m n) (P : QMat n n) (Sinv : QMat m m) : QMat n m 
 def updCov {m n : Nat} (H : QMat m n) (P : QMat n n) (Sinv : QMat m m) : QMat n n :=
   P.sub ((gain H P Sinv).mul (H.mul P))
 
+/-- Joseph form `(I − K H) P (I − K H)ᵀ + K Q Kᵀ` — what `sensor_model` (Python) and `sensor_model.hpp` (generated C++) compute
+since the fix of F16; equal to `updCov` whenever `Sinv` really is the inverse (`C09.joseph_eq_updCov`), and a valid covariance for
+ANY `Sinv` (`C09.joseph_valid_for_any_gain`) -/
+def updCovJoseph {m n : Nat} (H : QMat m n) (P : QMat n n) (Q : QMat m m) (Sinv : QMat m m) : QMat n n :=
+  let K := gain H P Sinv
+  let A := (QMat.one (n := n)).sub (K.mul H)
+  ((A.mul P).mul A.transpose).add ((K.mul Q).mul K.transpose)
+
 /-- `x + K y` -/
 def updState {m n : Nat} (H : QMat m n) (P : QMat n n) (Sinv : QMat m m) (x : Fin n → Rat)
     (y : Fin m → Rat) : Fin n → Rat :=
